@@ -123,6 +123,17 @@ func c14Script(r *verdict.Run, d *diffEnv, rng *rand.Rand, steps int) {
 		_ = before
 		if d.lastDiverged {
 			d.reconnect(ci)
+		} else if !d.sessions[ci].InMulti && (name == "SELECT" || rng.Intn(6) == 0) {
+			// what the connection is reported to have selected (CLIENT INFO of itself, CLIENT LIST of another connection)
+			// is the database its commands really work on - also right after a SELECT that was refused
+			want := strconv.Itoa(d.sessions[ci].DB)
+			if v, err := d.cns[ci].Do("CLIENT", "INFO"); err == nil && !v.IsError() {
+				for _, kv := range strings.Fields(v.Text()) {
+					if strings.HasPrefix(kv, "db=") && kv[3:] != want {
+						r.Report("dbs/reported-selection/client-info", fmt.Sprintf("after %s on connection %d: CLIENT INFO says %s but the connection works in database %s", cmdString(args), ci, kv, want), d.replay(nil))
+					}
+				}
+			}
 		}
 	}
 }
